@@ -133,6 +133,10 @@ struct Digest {
 
 fn digest(bytes: &[u8]) -> Result<Digest, Failure> {
     let r = open(bytes)?;
+    digest_of(&r)
+}
+
+fn digest_of<R: std::io::Read + std::io::Seek>(r: &mp4::Mp4Reader<R>) -> Result<Digest, Failure> {
     let movie = guarded("movie accessors", || format!("{} {} {:?} {:?} {} {}", r.major_brand(), r.minor_version(), r.compatible_brands(), r.duration(), r.timescale(), r.is_fragmented()))?;
     let mut ids: Vec<u32> = r.tracks().keys().copied().collect();
     ids.sort();
@@ -225,6 +229,26 @@ pub fn oracle(ctx: &mut Ctx, case: &Case) -> Check {
             .collect();
         check_samples(&mut sr, &variant, &shifted, &SampleCheckOpts { check_sync: false, prefix: "c12seg" }).map_err(|f| super::c09::tag_multi_trex_pub(&variant, f)).map_err(tag)?;
         ctx.count("path:init+segment");
+    }
+    // physical size as a layout choice: the same variant with a top-level free box of about 4 or
+    // 5 GiB (64-bit size header) after ftyp, after the second box or at the end, served from a
+    // stream that does not store the gap. One case in four.
+    let hsel = crate::engine::fnv64(serde_json::to_string(&xforms).unwrap_or_default().as_bytes()) ^ crate::engine::fnv64(&base.bytes);
+    if hsel % 4 == 0 && !xforms.iter().any(|x| matches!(x, Xform::Swap { path, .. } | Xform::Insert { path, .. } if path.is_empty())) {
+        let lens = [(1u64 << 32) - 24, (1u64 << 32) - 16, 1u64 << 32, (1u64 << 32) + 1, 5u64 << 30];
+        let mut big = variant.clone();
+        big.huge = Some((((hsel >> 8) % 3) as u8, lens[((hsel >> 16) % lens.len() as u64) as usize]));
+        let bb = build(&big);
+        let desc = format!("{:?} + {:?}", xforms, big.huge);
+        let tagb = |f: Failure| Failure::new(f.sig, format!("{} [transformations: {}]", f.detail, desc));
+        let mut rb = crate::oracle::open_built(&bb).map_err(|f| tagb(Failure::new(format!("c12:huge-variant-{}", f.sig), f.detail)))?;
+        let db = digest_of(&rb).map_err(tagb)?;
+        // (the builder switches tracks behind the gap to 64-bit chunk offsets: table form is layout too)
+        if d0.movie != db.movie || d0.tracks != db.tracks || d0.meta != db.meta {
+            return Err(tagb(Failure::new("c12:huge-variant-accessors", "accessors differ once the file is physically larger than 4 GiB".to_string())));
+        }
+        check_samples(&mut rb, &big, &bb.truth, &SampleCheckOpts { check_sync: big.frags.is_empty(), prefix: "c12huge" }).map_err(|f| super::c09::tag_multi_trex_pub(&big, f)).map_err(tagb)?;
+        ctx.count("xform:file-larger-than-4GiB");
     }
     // classes
     for x in &xforms {
